@@ -176,7 +176,8 @@ class HttpParser:
         # If the request is of type chunked encoding
         # add post data as chunk
         if self.is_chunked_encoded:
-            body = ChunkParser.to_chunks(body)
+            # body is kept decoded, it is chunk encoded
+            # when the message is built (_get_body_or_chunks)
             self.del_header(b'content-length')
         else:
             self.add_header(
